@@ -453,7 +453,12 @@ def shrink_failure(prop, case, code, tmpdir, max_rounds=12, width=48):
         return case, None
     cur = case
     cur_obs = None
+    # shrinking is a convenience: it never runs longer than VERIF_SHRINK_BUDGET seconds (a failure that is a hang
+    # costs one watchdog period per candidate)
+    deadline = time.time() + float(os.environ.get("VERIF_SHRINK_BUDGET", "240"))
     for rnd in range(max_rounds):
+        if time.time() > deadline:
+            break
         cands = []
         for c in prop.shrink(cur):
             cands.append(c)
